@@ -237,7 +237,10 @@ def drawn_path(font, g):
     from fontTools.pens.recordingPen import RecordingPen
 
     pen = RecordingPen()
-    font.getGlyphSet()[g].draw(pen)
+    try:
+        font.getGlyphSet()[g].draw(pen)
+    except Exception as e:
+        raise OutOfDomain("master charstring cannot be drawn (%s)" % type(e).__name__)
     out = []
     for op, args in pen.value:
         if op == "moveTo":
